@@ -492,6 +492,8 @@ namespace bxdecay0 {
       bbpars raz;
       _pimpl_->bb_params = raz;
     }
+    // A previous initialisation attempt with a gA mode may have failed after raising this flag:
+    _pimpl_->use_dbd_ga = false;
     if (_decay_version_.empty()) {
       set_decay_version(BXDECAY0_LIB_VERSION);
     }
